@@ -59,6 +59,12 @@ def gen_queries(rng, spec, nq):
         rest = [v for v in range(n) if v not in used]
         cr = rng.sample(rest, rng.randint(0, len(rest))) if rng.random() < 0.7 else rng.sample(range(n), rng.randint(0, n))
         q = {'m': m, 'gs': gs, 'cr': cr, 'byname': spec['names'] is not None and rng.random() < 0.4}
+        if rng.random() < 0.25 and n >= 2:
+            # the documented default grouping: rvs=None means every variable on its own (conditioning given by indices)
+            q['gs'] = gs = [[i] for i in range(n)]
+            q['cr'] = rng.sample(range(n), rng.randint(0, n - 1))
+            q['rvs_none'] = True
+            q['byname'] = False
         if m == 'cohesion':
             q['k'] = rng.randint(1, len(gs))
         if m == 'caekl' and len(set(map(tuple, gs))) < 2:
@@ -137,6 +143,8 @@ def observe(case):
         def py(s):
             return [spec['names'][i] for i in s] if q['byname'] else list(s)
         gs = [py(g) for g in q['gs']]
+        if q.get('rvs_none'):
+            gs = None
         cr = py(q['cr'])
         r = {'raised': False, 'v': 0.0}
         try:
